@@ -439,6 +439,53 @@ def pattern_arms(ctx, py, eff):
     ctx.floor('pattern-arms', 10)
 
 
+def label_branch(loop, LABEL: str, label: str):
+    """bodies of the branches of the replay loop taken when the step label equals `label`: `if LABEL == 'x':` (either operand
+    order, also as an elif) or `match LABEL: case 'x':`"""
+    out = []
+    for b in ast.walk(loop):
+        if isinstance(b, ast.If) and isinstance(b.test, ast.Compare) and len(b.test.ops) == 1 and isinstance(b.test.ops[0], ast.Eq):
+            l, r = b.test.left, b.test.comparators[0]
+            for x, y in ((l, r), (r, l)):
+                if ast.unparse(x) == LABEL and isinstance(y, ast.Constant) and y.value == label:
+                    out.append((b, b.body))
+        elif isinstance(b, ast.Match) and ast.unparse(b.subject) == LABEL:
+            for case in b.cases:
+                pats = case.pattern.patterns if isinstance(case.pattern, ast.MatchOr) else [case.pattern]
+                if case.guard is None and any(isinstance(p_, ast.MatchValue) and isinstance(p_.value, ast.Constant) and p_.value.value == label
+                                              for p_ in pats):
+                    out.append((case, case.body))
+    return out
+
+
+def inline_locals(stmts, e, keep=()):
+    """`e` with every local that is assigned exactly once in `stmts` (a plain `name = expr`) replaced by its definition"""
+    defs: dict[str, list] = {}
+    for s in stmts:
+        for n in ast.walk(s):
+            if isinstance(n, ast.Name) and isinstance(n.ctx, ast.Store):
+                defs.setdefault(n.id, []).append(None)
+        if isinstance(s, ast.Assign) and len(s.targets) == 1 and isinstance(s.targets[0], ast.Name):
+            defs[s.targets[0].id][-1] = s.value
+        elif isinstance(s, ast.Assign) and len(s.targets) == 1 and isinstance(s.targets[0], ast.Tuple) and isinstance(s.value, ast.Tuple) \
+                and len(s.targets[0].elts) == len(s.value.elts) and all(isinstance(t, ast.Name) for t in s.targets[0].elts):
+            for t, v in zip(s.targets[0].elts, s.value.elts):          # a, b = (x, y)
+                defs[t.id][-1] = v
+    single = {k: v[0] for k, v in defs.items() if len(v) == 1 and v[0] is not None and k not in keep}
+
+    class T(ast.NodeTransformer):
+        depth = 0
+
+        def visit_Name(self, node):
+            if isinstance(node.ctx, ast.Load) and node.id in single and self.depth < 6:
+                self.depth += 1
+                r = self.visit(ast.parse(ast.unparse(single[node.id]), mode='eval').body)
+                self.depth -= 1
+                return r
+            return node
+    return T().visit(ast.parse(ast.unparse(e), mode='eval').body)
+
+
 def operand_positions(ctx, py, fn, local_defs, theory, STACK, receivers, LABEL, loop):
     # (1) get_delta: the i-th floating hypothesis is read from slot -(n+1)+i, keyed by the metavariable it instantiates
     gd = local_defs.get('get_delta')
@@ -510,9 +557,9 @@ def operand_positions(ctx, py, fn, local_defs, theory, STACK, receivers, LABEL, 
         ok_unify = unify_mm(MT.parse_term(th['statement'][1:]), schema, binding)
         ctx.require(ok_unify, f'the prelude statement of {label} is not an instance of the {meth} schema')
         n = len(th['floats'])
-        branch = [b for b in ast.walk(loop) if isinstance(b, ast.If) and ast.unparse(b.test) == f"{LABEL} == '{label}'"]
+        branch = label_branch(loop, LABEL, label)
         ctx.require(len(branch) == 1, f'exec_proof: branch for {label} not found')
-        body = branch[0].body
+        body = branch[0][1]
         benv = {s.targets[0].id: s for s in body if isinstance(s, ast.Assign) and isinstance(s.targets[0], ast.Name)}
         push = [s for s in body for c in _own(s) if isinstance(c, ast.Call) and isinstance(c.func, ast.Attribute) and c.func.attr == meth
                 and ast.unparse(c.func.value) in receivers]
@@ -586,10 +633,10 @@ def operand_positions(ctx, py, fn, local_defs, theory, STACK, receivers, LABEL, 
            f'modus_ponens takes the implication as `{imp_param[0]}`; expected slots {want}, found {got}', py.where(TR, calls[0]))
     # (4) app / imp constructors: left operand deeper
     for label, meth in (('app-is-pattern', 'app'), ('imp-is-pattern', 'implies')):
-        branch = [b for b in ast.walk(loop) if isinstance(b, ast.If) and ast.unparse(b.test) == f"{LABEL} == '{label}'"]
+        branch = label_branch(loop, LABEL, label)
         ctx.require(len(branch) == 1, f'exec_proof: branch for {label} not found')
-        benv = {s.targets[0].id: s.value for s in branch[0].body if isinstance(s, ast.Assign) and isinstance(s.targets[0], ast.Name)}
-        calls = [c for s in branch[0].body for c in _own(s) if isinstance(c, ast.Call) and isinstance(c.func, ast.Attribute) and c.func.attr == meth
+        benv = {s.targets[0].id: s.value for s in branch[0][1] if isinstance(s, ast.Assign) and isinstance(s.targets[0], ast.Name)}
+        calls = [c for s in branch[0][1] for c in _own(s) if isinstance(c, ast.Call) and isinstance(c.func, ast.Attribute) and c.func.attr == meth
                  and ast.unparse(c.func.value) in receivers]
         ok = False
         if len(calls) == 1 and len(calls[0].args) == 2:
@@ -607,7 +654,7 @@ def operand_positions(ctx, py, fn, local_defs, theory, STACK, receivers, LABEL, 
             ok = slots == [-2 + order[0], -2 + order[1]]
         ctx.ob('operand-position', f'{label}/operands', ok,
                f'{label}: the operands of {meth} must be the two floating hypotheses in prelude order (left at slot -2, right at -1)',
-               py.where(TR, branch[0]))
+               py.where(TR, branch[0][0]))
 
 
 def memory_map_standalone(ctx, py):
@@ -663,13 +710,14 @@ def memory_map(ctx, py, loop, LV, PROOF, STACK, receivers):
              and ast.unparse(c.func.value) in receivers]
     ok, detail = False, ''
     if len(loads) == 1:
-        subs = [n for n in ast.walk(loads[0]) if isinstance(n, ast.Subscript) and ast.unparse(n.value) == MEM]
+        load_call = inline_locals(rb, loads[0])
+        subs = [n for n in ast.walk(load_call) if isinstance(n, ast.Subscript) and ast.unparse(n.value) == MEM]
         try:
             idxs = [lin_index(s.slice, env) for s in subs]
         except ValueError as ex:
             idxs, detail = [], str(ex)
         want = Lin(-1, {LV: 1, f'#{PROOF}.labels': -1})
-        ok = bool(idxs) and all(i == want for i in idxs) and isinstance(loads[0].args[1], ast.Subscript)
+        ok = bool(idxs) and all(i == want for i in idxs) and len(load_call.args) == 2 and isinstance(load_call.args[1], ast.Subscript)
         detail = detail or f'found index {idxs[0] if idxs else "?"}, expected {want}'
     ctx.ob('memory-map', 'reuse-index', ok,
            f'numbers above len(labels) denote the saved steps in order: number k reloads saved entry k - len(labels) - 1 (0-based); {detail}',
